@@ -593,6 +593,55 @@ pub fn run(tier: Tier) -> i32 {
         }
     }
     check_signatures(&mut st);
+    // names are exact strings: a padded name is another name (registering or deregistering it leaves the plain one alone)
+    {
+        let mk = |tag: &'static str| -> Box<dyn jmespath::functions::Function> {
+            Box::new(move |_: &[Rcvar], _: &mut Context<'_>| Ok(Rcvar::new(Variable::String(tag.to_string()))))
+        };
+        for pad in ["f ", " f", "f\t", "\tf", "f\n", "\u{a0}f", "f\u{a0}", " f "] {
+            let mut rt = Runtime::new();
+            rt.register_builtin_functions();
+            rt.register_function("f", mk("plain"));
+            rt.register_function(pad, mk("padded"));
+            let mut rt2 = Runtime::new();
+            rt2.register_builtin_functions();
+            rt2.register_function(pad, mk("padded"));
+            rt2.deregister_function(&pad.replace('f', "length"));
+            let mut rt3 = Runtime::new();
+            rt3.register_builtin_functions();
+            rt3.register_function("f", mk("plain"));
+            rt3.deregister_function(pad);
+            let probes: Vec<(&str, &Runtime, &str, Result<&str, ErrClass>)> = vec![
+                ("register(f), register(padded)", &rt, "f()", Ok("\"plain\"")),
+                ("register(padded) only", &rt2, "f()", Err(ErrClass::UnknownFunction)),
+                ("deregister(padded 'length')", &rt2, "length('ab')", Ok("2")),
+                ("register(f), deregister(padded)", &rt3, "f()", Ok("\"plain\"")),
+            ];
+            for (what, r, call, want) in probes {
+                st.states += 1;
+                st.evaluations += 1;
+                st.validated += 1;
+                let got = guarded(|| r.compile(call).map_err(|e| classify(&e)).and_then(|e| e.search(()).map(|v| v.to_string()).map_err(|e| classify(&e))));
+                let ok = match (&want, &got) {
+                    (Ok(w), Ok(Ok(g))) => w == g,
+                    (Err(c), Ok(Err(g))) => *g == IClass::Rt(*c),
+                    _ => false,
+                };
+                if ok {
+                    st.outcome("padded names are other names");
+                } else {
+                    st.violate(Violation { key: "C15/padded-name".into(), check: "padded-names".into(), case: json!({"kind": "padded-name", "padded": pad, "history": what, "call": call}), expected: format!("{:?}", want), actual: format!("{:?}", got) });
+                }
+            }
+            for (r, present) in [(&rt, true), (&rt2, true), (&rt3, false)] {
+                st.evaluations += 1;
+                st.validated += 1;
+                if r.get_function(pad).is_some() != present {
+                    st.violate(Violation { key: "C15/padded-name".into(), check: "padded-names".into(), case: json!({"kind": "padded-name", "padded": pad, "history": "get_function(padded)"}), expected: format!("registered = {}", present), actual: format!("registered = {}", !present) });
+                }
+            }
+        }
+    }
     rep.rule = "explicit-state BFS over all histories of register(name, A|B|Sig) / deregister(name) / register_builtins over the names {abs, length, foo} up to the depth bound; after every history get_function presence for 6 names and 8 probe calls compiled from that runtime are compared with the reference map (most recent registration still registered wins; builtins per R-fn; unknown-function otherwise). Call protocol: recording custom functions on every argument vector up to the bound over {a, b, &a, `1`, rec2(a), rec2(&b, b)} in 9 contexts: recorded argument images, invocation order and results equal R-eval's; CustomFunction x 12 signature types x {fixed, variadic} x all argument class vectors of length <= 2: closure invoked iff the signature is satisfied. non-trivial = non-empty history / function actually invoked Custom signatures in three shapes (one parameter; parameter + variadic tail; string parameter + variadic tail of the type) with every argument vector up to length 3 (variadic) and a 5-class subset at length 4; protocol contexts include a null left-hand side with and without a further step applied to the call. Argument classes include document fields and the current node, so that the same node reaches two parameters; calls also stand as operands of comparisons with a non-number on the other side.".into();
     rep.bounds = json!({"history_depth": depth, "operations": nops, "protocol_max_args": maxargs});
     rep.stats = st;
